@@ -187,6 +187,21 @@ theorem beAt_append_left (a b : Bytes) (off w : Nat) (h : off + w ≤ a.length) 
   unfold beAt
   rw [List.drop_append_of_le_length (by omega), List.take_append_of_le_length (by simp; omega)]
 
+theorem beAt_take (bs : Bytes) (m off w : Nat) (h : off + w ≤ m) : beAt (bs.take m) off w = beAt bs off w := by
+  unfold beAt
+  rw [List.drop_take, List.take_take, Nat.min_eq_left (by omega)]
+
+/-- the middle part of `a ++ m ++ z` -/
+theorem mid_of_append (a m z : Bytes) (k : Nat) (hk : a.length = k) : ((a ++ m ++ z).drop k).take m.length = m := by
+  subst hk
+  rw [List.append_assoc, List.drop_left]; simp
+
+/-- the tail of `a ++ m ++ z` -/
+theorem tail_of_append (a m z : Bytes) (k : Nat) (hk : a.length + m.length = k) : (a ++ m ++ z).drop k = z := by
+  subst hk
+  have : a.length + m.length = (a ++ m).length := by simp
+  rw [this, List.drop_left]
+
 theorem n16_toNat' (n : Nat) : (n16 n).toNat = n % 65536 := by simp [n16, UInt16.toNat_ofNat']
 theorem n32_toNat' (n : Nat) : (n32 n).toNat = n % 4294967296 := by simp [n32, UInt32.toNat_ofNat']
 theorem n16_of_toNat (x : UInt16) : n16 x.toNat = x := by
